@@ -9409,7 +9409,7 @@ class Io_Implied_Do(Base):  # R917
 
     @staticmethod
     def match(string):
-        if len(string) <= 9 or string[0] != "(" or string[-1] != ")":
+        if len(string) < 9 or string[0] != "(" or string[-1] != ")":
             return
         line, repmap = string_replace_map(string[1:-1].strip())
         i = line.rfind("=")
